@@ -17,14 +17,14 @@ import (
 // pure boundary observer: it never alters data.
 type MonConn struct {
 	net.Conn
-	mu       sync.Mutex
-	rdIn     int64
-	rdOut    int64
-	rdBytes  int64
-	wrBytes  int64
-	wrCalls  int64
-	closed   bool
-	wrErrs   int64
+	mu      sync.Mutex
+	rdIn    int64
+	rdOut   int64
+	rdBytes int64
+	wrBytes int64
+	wrCalls int64
+	closed  bool
+	wrErrs  int64
 }
 
 func (c *MonConn) Read(p []byte) (int, error) {
